@@ -255,13 +255,26 @@ def progISet (cell : Nat) (name : String) (elems : List (Int × Bool)) : List St
     Field objects (cell, does the option accept the value) in declaration order.  An option validates on a scratch
     structure (`check`); only its error - named by the option's `_name` AT THAT MOMENT - can be observed. -/
 
-/-- `AllOf.__set__`: every option must accept; then the value is stored under the wrapper's own name -/
+/-- what a wrapper does once an option (cell `c`) is to store the value (`AnyOf`; in tree b6495fe also `AllOf` / `OneOf`): `option.__set__(instance, value)` stores on the real instance UNDER THE OPTION's `_name`, the wrapper
+    reads it back under its own name (`instance.__dict__[self._name]`) and stores that -/
+def storeThrough (own : Nm) (v : Int) (c : Nat) : List Step :=
+  [.store (.cell c) v true, .move own own, .load own]
+
+/-- `AllOf.__set__`: every option must accept (scratch validation); then the value is stored under the wrapper's own name -/
 def progAllOfFrom (own : Nm) : List (Nat × Bool) → List Step
   | [] => []
   | (c, ok) :: rest => .write c own :: .check (.cell c) ok :: progAllOfFrom own rest
 
 def progAllOf (own : Nm) (v : Int) (opts : List (Nat × Bool)) : List Step :=
   progAllOfFrom own opts ++ [.store own v true, .load own]
+
+/-- the `AllOf.__set__` of tree b6495fe (fix 95931f6, replaced by 89fd84a): the FIRST option stores the value on the real
+    instance.  Kept as a model variant: the harness selects it when the translator finds such a call in the site function. -/
+def progAllOfThrough (own : Nm) (v : Int) (opts : List (Nat × Bool)) : List Step :=
+  progAllOfFrom own opts ++
+    (match opts with
+     | [] => [.store own v true, .load own]
+     | (c, _) :: _ => storeThrough own v c)
 
 /-- `AnyOf.__set__`: options are tried in order (errors swallowed); the first that accepts then stores the value on the
     real instance UNDER ITS OWN `_name` (`matched.__set__(instance, value)`), and the wrapper reads it back under the
@@ -270,7 +283,7 @@ def progAnyOf (own : Nm) (v : Int) : List (Nat × Bool) → List Step
   | [] => [.check own false]
   | (c, ok) :: rest =>
     .write c own :: .check (.cell c) true ::
-      (if ok then [.store (.cell c) v true, .move own own, .load own] else progAnyOf own v rest)
+      (if ok then storeThrough own v c else progAnyOf own v rest)
 
 /-- `OneOf.__set__`: every option is tried (errors swallowed); exactly one must accept -/
 def progOneOfFrom (own : Nm) : List (Nat × Bool) → List Step
@@ -281,6 +294,13 @@ def progOneOf (own : Nm) (v : Int) (opts : List (Nat × Bool)) : List Step :=
   progOneOfFrom own opts ++
     (if (opts.filter fun o => o.2).length == 1 then [.store own v true, .load own] else [.check own false])
 
+/-- the `OneOf.__set__` of tree b6495fe: the one option that accepted stores the value (model variant, see progAllOfThrough) -/
+def progOneOfThrough (own : Nm) (v : Int) (opts : List (Nat × Bool)) : List Step :=
+  progOneOfFrom own opts ++
+    (match opts.filter fun o => o.2 with
+     | [(c, _)] => storeThrough own v c
+     | _ => [.check own false])
+
 /-- `NotField.__set__`: no option may accept -/
 def progNotField (own : Nm) (v : Int) : List (Nat × Bool) → List Step
   | [] => [.store own v true, .load own]
@@ -289,6 +309,8 @@ def progNotField (own : Nm) (v : Int) : List (Nat × Bool) → List Step
 
 inductive WKind where
   | allOf | anyOf | oneOf | notField
+  /-- variants in which the accepting option stores the value on the real instance (tree b6495fe) -/
+  | allOfThrough | oneOfThrough
   deriving DecidableEq, Repr
 
 /-- the program of a multi-field wrapper whose own name is `own` -/
@@ -298,6 +320,8 @@ def wrapProg (kind : WKind) (own : Nm) (v : Int) (opts : List (Nat × Bool)) : L
   | .anyOf => progAnyOf own v opts
   | .oneOf => progOneOf own v opts
   | .notField => progNotField own v opts
+  | .allOfThrough => progAllOfThrough own v opts
+  | .oneOfThrough => progOneOfThrough own v opts
 
 /-- `Array[W[...]]` / `Deque[W[...]]` (extract_field_value) whose single items object is a multi-field wrapper `W` (cell
     `cW`): the wrapper's OWN name is the scratch cell of the outer loop; per element the outer writes `name_i` into it,
@@ -339,6 +363,8 @@ def Call.prog : Call → List Step
   | .wrap .anyOf n v os => progAnyOf (.const n) v os
   | .wrap .oneOf n v os => progOneOf (.const n) v os
   | .wrap .notField n v os => progNotField (.const n) v os
+  | .wrap .allOfThrough n v os => progAllOfThrough (.const n) v os
+  | .wrap .oneOfThrough n v os => progOneOfThrough (.const n) v os
   | .nest cW n k es => progNest cW n k es
 
 /-- decidable conflict freedom: no program writes a cell that another program reads -/
